@@ -300,6 +300,17 @@ def check(case):
                     if stored is not None else u""
             except AttributeError:
                 text_stored = u""
+            if case.get("store_all") or objs[0].status.name == "failed":
+                # ... and ALL of it: what was captured in the scenario is kept with it (failed scenarios always,
+                # every scenario when a reporter such as junit asks for it)
+                for k, text, lvl, logger in sofar:
+                    if destination(k, lvl, logger, cap, cfg) == "captured" and text not in text_stored:
+                        res.fail("C18.stored.missing", "the output stored with scenario %r (status %s) lacks %s (%s): %r"
+                                 % (name, objs[0].status.name, text, k, text_stored[-300:]))
+                        break
+                else:
+                    if sofar:
+                        res.label("stored:complete")
             for on in ref.selected:
                 if on != name and (u"|%s|" % on) in text_stored:
                     res.fail("C18.stored.foreign", "the output stored with scenario %r (status %s) contains output of "
@@ -505,7 +516,7 @@ def explore(rec):
 
 
 def required_labels(tier):
-    return ["capture:%d%d%d" % (a, b, c) for a in (0, 1) for b in (0, 1) for c in (0, 1)] + \
+    return ["stored:complete"] + ["capture:%d%d%d" % (a, b, c) for a in (0, 1) for b in (0, 1) for c in (0, 1)] + \
            ["hook-emit", "failing-not-first", "step-hook-fault", "logging-level/filter", "setup_logging-in-before_all", "@capture-decorated-hooks", "log-flood>=999", "interrupt", "nested-steps", "cli", "cli:default-before_all",
             "step-changes-root-logger-level", "continue-after-failed-step:second-failure"]
 
